@@ -53,5 +53,6 @@ func (ai ArrayItems) MarshalJSON() ([]byte, error) {
 	if length == 0 {
 		b.WriteString(`{}`)
 	}
-	return b.Bytes(), nil
+	// The buffer goes back to the pool: hand out a copy.
+	return append([]byte(nil), b.Bytes()...), nil
 }
